@@ -2,7 +2,7 @@
 // (leaks of libosmium objects are not what these checks decide; fd/thread leaks are modelled).
 extern "C" {
 __attribute__((used, visibility("default"))) const char* __asan_default_options() {
-    return "exitcode=77:detect_leaks=0:abort_on_error=0:allocator_may_return_null=1:detect_stack_use_after_return=0";
+    return "exitcode=77:detect_leaks=0:abort_on_error=0:allocator_may_return_null=1:detect_stack_use_after_return=0:quarantine_size_mb=16";
 }
 __attribute__((used, visibility("default"))) const char* __ubsan_default_options() {
     return "halt_on_error=1:exitcode=78:print_stacktrace=1";
